@@ -9,6 +9,7 @@ IntVals   == {iv(0), iv(1), iv(2)}
 FloatVals == {fv(-2), fv(1), fv(2), NA}
 StrVals   == {sv(1), sv(2), sv(4), sv(6), NA}
 BoolVals  == {bv(0), bv(1)}
+MaskedVals == {iv(0), iv(1), NA}          \* pandas nullable extension dtype Int64
 
 SeqsUpTo(V, n) == UNION { [1..k -> V] : k \in 0..n }
 
@@ -66,11 +67,15 @@ SchemasInt   == CoreSchemas \cup CheckSchemasOf(NumCheckPool, {"none", "int64"})
 SchemasFloat == CoreSchemas \cup CheckSchemasOf(NumCheckPool, {"none", "float64"})
 SchemasStr   == CoreSchemas \cup CheckSchemasOf(StrCheckPool, {"none", "str"})
 SchemasBool  == CoreSchemas \cup CheckSchemasOf(BoolCheckPool, {"none", "bool"})
+(* masked integers: checks only with ignore_na (a masked comparison yields NA, whose truth value is undefined) *)
+SchemasMasked == { [s EXCEPT !.dtype = IF @ = "int64" THEN "Int64" ELSE @] : s \in CoreSchemas }
+                   \cup CheckSchemasOf({ c \in NumCheckPool : c.ina /\ c.k # "unique_values_eq" }, {"none", "Int64"})
 
 Idxs(n) == { [i \in 1..n |-> iv(i - 1)], [i \in 1..n |-> iv(10 * (n + 1 - i))] }
 
 Pools == << <<"int64", IntVals, SchemasInt>>, <<"float64", FloatVals, SchemasFloat>>,
-            <<"object", StrVals, SchemasStr>>, <<"bool", BoolVals, SchemasBool>> >>
+            <<"object", StrVals, SchemasStr>>, <<"bool", BoolVals, SchemasBool>>,
+            <<"Int64", MaskedVals, SchemasMasked>> >>
 
 VARIABLES S, inp0, lazy, inplace, inp, obj, aliased, errs, raised, pc, ci, out
 
